@@ -15,7 +15,7 @@
 From Coq Require Import ZArith NArith Bool List Arith String Lia.
 Import ListNotations.
 From TP Require Import Base.PyVal Struct.CopyHeap Base.PyOpsAlias Base.PyOpsAliasIntake Gen.AliasSrc Gen.AliasIntakeSrc
-     Struct.AliasSrcProofs.
+     Struct.AliasSrcProofs Struct.CopyHeapProofs.
 From TP Require Base.PyOpsCollections.
 
 Definition item_field (f : nat) (n : pystr) : aval := AObj [(fid_key, AId (Some f)); (name_key, astr n)].
@@ -206,6 +206,21 @@ Proof.
   mred. rewrite IM. mred. unfold a_super_init. mred. rewrite run_plain_thunks'. mred. rewrite as_kids_plain. reflexivity.
 Qed.
 
+(* ... and from the caller's own plain list (an untyped Array hands it to the wrapper as it is): the body holds the
+   caller's ITEMS (a one-level copy: AliasSites s_liststruct_init = Copies), not the caller's list *)
+Lemma list_init_plain_ref E rec rest ia nmv l h o :
+  alist_get ia (s2p "_immutable") = None -> get h l = Some o -> o_kind o = KList ->
+  Src_ListStruct_init E rec (AObj []) (AObj ((s2p "_immutable", abool false) :: rest)) (AObj ia) (AV (CRef l)) nmv h =
+  Ok (h, AObj ((body_key, ATmp KWList (unlabel (o_kids o))) ::
+               wattrs (AObj ((s2p "_immutable", abool false) :: rest)) (AObj ia) nmv)).
+Proof.
+  intros IM G K. norm IM.
+  unfold Src_ListStruct_init, Src_ImmutableMixin_get_defensive_copy_if_needed, Src_ImmutableMixin_is_immutable.
+  mred. unfold child_isinstance. repeat (first [rewrite G | rewrite K | progress cbn [existsb kind_isinstance orb negb] | progress mred]). rewrite IM. mred.
+  unfold a_super_init. mred. unfold kind_of, a_kids. repeat (rewrite G; mred). rewrite K. repeat (rewrite G; mred).
+  rewrite run_plain_thunks'. mred. rewrite as_kids_plain. reflexivity.
+Qed.
+
 Section ArraySet.
   Variables (E : aenv) (CK : checks) (recf : nat -> heap -> child -> res (heap * child)).
   Variables (rec : heap -> child -> res (heap * child)) (sup0 : aval -> aval -> aval -> M aval).
@@ -240,7 +255,68 @@ Section ArraySet.
                eq_refl (fun X => match Bool.diff_false_true X with end) NN).
     reflexivity.
   Qed.
+
+  (* Array (no item field).__set__(instance, <the caller's plain list l>): a NEW _ListStruct (the one allocation)
+     holding the caller's items themselves -- the elements are shared (AliasIntake.pos at TArray None: any_reach xs),
+     the list is not *)
+  Theorem src_array_set_untyped l h o :
+    get h l = Some o -> o_kind o = KList ->
+    Src_Array_set E CK recf rec (Src_Field_set E CK recf rec sup0)
+                  (fself false false nm anone u ad) (AObj ia) (AV (CRef l)) h =
+    Ok (h ++ [{| o_kind := KWList; o_kids := unlabel (o_kids o) |}],
+        AObj (alist_set ia nm (AV (CRef (List.length h))))).
+  Proof.
+    intros G K. destruct PO as [[T I] IM]. pose proof T as T'. norm T'.
+    assert (CP : forall n a h, a_check CK n a h = Ok (h, anone)) by (intros; unfold a_check; rewrite CKP; reflexivity).
+    unfold Src_Array_set. mred. rewrite T'. mred. repeat (rewrite CP; mred).
+    unfold fself. rewrite (list_init_plain_ref E rec _ ia _ l h o IM G K). mred. unfold wattrs. mred.
+    fold (fself false false nm anone u ad).
+    rewrite (src_field_set_plain E CK recf rec sup0 nm anone u ad ia UO (conj T I) false false _ _
+               eq_refl (fun X => match Bool.diff_false_true X with end) NN).
+    reflexivity.
+  Qed.
 End ArraySet.
+
+(* a __set__ chain / a copy only EXTENDS the heap (every typedpy intake does: CopyHeapProofs.Step for deepcopy) *)
+Definition extends (g : heap -> child -> res (heap * child)) : Prop :=
+  forall h c h' c', g h c = Ok (h', c') -> exists e, h' = h ++ e.
+
+Lemma map_kidsR_extends g : extends g ->
+  forall kids h h' ks, map_kidsR g h kids = Ok (h', ks) -> exists e, h' = h ++ e.
+Proof.
+  intro X. induction kids as [|[k c] t IH]; intros h h' ks H.
+  - inversion H. exists []. symmetry. apply app_nil_r.
+  - cbn [map_kidsR] in H. destruct (g h c) as [[h1 c1]|e] eqn:G1; [| discriminate H].
+    destruct (map_kidsR g h1 t) as [[h2 t2]|e] eqn:M; [| discriminate H]. inversion H; subst.
+    destruct (X _ _ _ _ G1) as [e1 E1]. destruct (IH _ _ _ M) as [e2 E2]. exists (e1 ++ e2). subst. rewrite app_assoc. reflexivity.
+Qed.
+
+(* The typed Array intake in the terms of the separation model (CopyHeap): when the item field's chain only extends
+   the heap, the object the instance holds is a location that did not exist before the call (so it is not the
+   caller's list, nor anything the caller could reach), it is a _ListStruct over the item field's outputs, and the
+   caller's list is still what it was. *)
+Corollary src_array_set_typed_fresh E CK recf rec sup0 nm u ad ia f n0 l h o :
+  checks_pass CK -> uniq_off E -> plain_owner ia -> pystr_eqb nm (s2p "_instantiated") = false ->
+  extends (recf f) -> get h l = Some o -> o_kind o = KList ->
+  forall hf inst', 
+    Src_Array_set E CK recf rec (Src_Field_set E CK recf rec sup0)
+                  (fself false false nm (item_field f n0) u ad) (AObj ia) (AV (CRef l)) h = Ok (hf, inst') ->
+    exists w ks, inst' = AObj (alist_set ia nm (AV (CRef w))) /\ List.length h <= w /\
+                 get hf w = Some {| o_kind := KWList; o_kids := ks |} /\
+                 (exists h1, map_kidsR (recf f) h (unlabel (o_kids o)) = Ok (h1, ks)) /\
+                 get hf l = Some o.
+Proof.
+  intros CKP UO PO NN X G K hf inst' R.
+  rewrite (src_array_set_typed E CK recf rec sup0 nm u ad ia CKP UO PO NN f n0 l h o G K) in R.
+  destruct (map_kidsR (recf f) h (unlabel (o_kids o))) as [[h1 ks]|e] eqn:M; [| discriminate R].
+  cbn [lift_kids] in R. inversion R; subst hf inst'. clear R.
+  destruct (map_kidsR_extends _ X _ _ _ _ M) as [e E1].
+  exists (List.length h1), ks. repeat split.
+  - subst h1. rewrite app_length. lia.
+  - rewrite (map_kidsR_unlabel (recf f) _ _ _ _ M). apply get_app_new.
+  - exists h1. reflexivity.
+  - subst h1. rewrite <- app_assoc. rewrite get_app_old; [exact G | exact (get_lt _ _ _ G)].
+Qed.
 
 (* ------------------------------------------------------------------ the whole intake of an Array, on a sample
    (kernel-evaluated regression of the composition Array.__set__ -> extract_field_value -> _ListStruct(...) ->
@@ -316,3 +392,6 @@ Print Assumptions array_intake_untyped.
 Print Assumptions set_intake_typed.
 Print Assumptions set_intake_untyped_retains.
 Print Assumptions map_intake_typed.
+Print Assumptions src_array_set_typed.
+Print Assumptions src_array_set_untyped.
+Print Assumptions src_array_set_typed_fresh.
